@@ -326,7 +326,16 @@ def check_ctor_factory(model, R):
             elif n == 'tensor':
                 okargs = bool(got) and isinstance(got[0], P) and got[0] == P.atom(f.pos_params[0])
             else:
-                okargs = [x for x in flat if isinstance(x, P)][:len(user)] == user
+                def flatp(vals):
+                    out_ = []
+                    for g_ in vals:
+                        out_.extend([y for y in (list(g_) if isinstance(g_, (list, tuple)) else [g_]) if isinstance(y, P)])
+                    return out_
+                posv, kwv = flatp(got), {k_: flatp([v_]) for k_, v_ in hits[0][2].items()}
+                allv = posv + [y for v_ in kwv.values() for y in v_]
+                # positional arguments in the user's order; keyword arguments under a name that is also a parameter of the initializer carry that parameter
+                okargs = posv == user[:len(posv)] and all(u in allv for u in user) \
+                    and all(v_ == [P.atom(k_)] for k_, v_ in kwv.items() if k_ in own and v_)
             if not okargs:
                 bad.append('%s receives %s, expected the user arguments %s in order' % (want, [x.canon() if isinstance(x, P) else repr(x) for x in flat][:6], [u.canon() for u in user]))
         R.ob('C05.CTOR-FACTORY', f.qualname, '%s -> %s' % (n, want), not bad and any(o.kind == 'return' for o in outs), 'the initializer must delegate to NumPy: %s' % bad[:2], f.loc)
